@@ -1,0 +1,25 @@
+//go:build verif
+
+package task
+
+// Machine-checked contracts for tasks (comment-only; compiled only with -tags verif).
+
+//@ props C01 C02 C09 C14
+
+//@ func (Results).Ok
+//@ ensures result == tasksOk(r, len(r))
+//@ loop 0: invariant 0 <= $i && $i <= len(r) && tasksOk(r, $i)
+//@ loop 0: decreases len(r) - $i
+
+// Run executes every command of the task in order through the runner.
+//@ func (*Task).Run
+//@ requires runner != nil
+//@ modifies ranCount
+//@ ensures ranCount == store(old(ranCount), t.Name, old(ranCount)[t.Name] + 1)
+//@ ensures result1 == nil ==> len(result0) == len(t.Commands)
+//@ ensures result1 == nil ==> forall k int :: {result0[k]} 0 <= k && k < len(result0) ==> result0[k].Cmd == t.Commands[k]
+//@ ensures result1 != nil ==> len(result0) == 0
+//@ at entry: ghost ranCount = store(ranCount, t.Name, ranCount[t.Name] + 1)
+//@ loop 0: invariant 0 <= $i && $i <= len(t.Commands) && len(results) == $i
+//@ loop 0: invariant forall k int :: {results[k]} 0 <= k && k < $i ==> results[k].Cmd == t.Commands[k]
+//@ loop 0: decreases len(t.Commands) - $i
